@@ -322,3 +322,24 @@ Definition array_view (t : ttape) (r : areader) : outcome arr_view :=
   do vs <- values_all t r;
   do tl <- array_tokens_len r;
   Ok (mk_arr_view n vs tl).
+
+(* ---------------------------------------------------------------- specification of grouping *)
+Definition field_kb (f : field) : bytes := tok_bytes (f_key f).
+Definition field_ov (f : field) : opval := (f_op f, f_val f).
+Definition mem_key (k : bytes) (seen : list bytes) : bool := existsb (beqb k) seen.
+
+(* the fields whose raw key has not occurred before, in order *)
+Fixpoint first_fields (seen : list bytes) (fs : list field) : list field :=
+  match fs with
+  | [] => []
+  | f :: r =>
+      if mem_key (field_kb f) seen then first_fields seen r
+      else f :: first_fields (field_kb f :: seen) r
+  end.
+
+(* all (operator, value) pairs of the fields with raw key [k], in order *)
+Definition vals_of (k : bytes) (fs : list field) : list opval :=
+  map field_ov (filter (fun f => beqb (field_kb f) k) fs).
+
+Definition groups_spec (fs : list field) : list group :=
+  map (fun f => mk_group (f_key f) (vals_of (field_kb f) fs)) (first_fields [] fs).
